@@ -341,6 +341,36 @@ def _list_forms(run: Run, prog: Program, model: Model, tier: str) -> None:
                 probs.append("the `...` marker is handed to the member loop as if it were a schema")
             if list(s) != members and "?" not in s:
                 probs.append(f"members validated {list(s)} differ from the declared concrete members {members}")
+        # window start per form (spec): exact/head 0, tail max(0, len(value) - n), contains: a window index
+        toks = ["..." if is_ell(x) else "S" for x in mk().items]
+        n = len(members)
+        starts = {b for _, b in v}
+        if toks and toks[0] == "..." and (len(toks) == 1 or toks[-1] != "..."):
+            want_start = {f"max(0, bin(-, len(value), {n}))"}
+            form = "tail"
+        elif len(toks) > 2 and toks[0] == "..." and toks[-1] == "...":
+            want_start = {"0", "<window index>"}
+            form = "contains"
+        else:
+            want_start = {"0"}
+            form = "head" if toks and toks[-1] == "..." else "exact"
+        if v and not (starts <= want_start and (form != "contains" or "<window index>" in starts)):
+            probs.append(f"{form} form validates its members starting at {sorted(starts)}, specified {sorted(want_start)}")
+        if form == "exact":
+            # surplus elements must be reported
+            rows, _ = extract(prog, model, "Validator", "visit_list", cfg, 1)
+            ex = [r for r in rows if r.error == "ExtraElementValidationError"]
+            okx = any(r.term is not None and relation(r.term, bool(r.polarity), "len(value)", str(n)) == frozenset({"GT"}) or
+                      (r.term is not None and any(isinstance(t, Term) and relation(t, b, "len(value)", str(n)) == frozenset({"GT"})
+                                                  for _, t, b in r.all_facts)) for r in ex)
+            if not ex:
+                probs.append("surplus elements of an exact list are never reported")
+            elif not okx:
+                probs.append("surplus elements are not reported exactly when len(value) > number of declared elements")
+        else:
+            rows, _ = extract(prog, model, "Validator", "visit_list", cfg, 1)
+            if any(r.error == "ExtraElementValidationError" for r in rows):
+                probs.append(f"{form} form reports extra elements although `...` allows them")
         if probs:
             run.violated("LIST-FORMS", construct, vf.loc, "; ".join(sorted(set(probs)))[:300],
                          witness=f"validate(schema.list({name}), <conforming list>) mis-validates")
@@ -444,4 +474,15 @@ MUTANTS = [
     {"name": "neutral: independent str checks reordered", "expect": "SILENT",
      "edits": [(V_, "        if schema.props.min_len is not Nil:\n            if len(value) < schema.props.min_len:\n                result.add_error(MinLengthValidationError(path, value, schema.props.min_len))\n        if schema.props.max_len is not Nil:\n            if len(value) > schema.props.max_len:\n                result.add_error(MaxLengthValidationError(path, value, schema.props.max_len))\n",
                 "        if schema.props.max_len is not Nil:\n            if len(value) > schema.props.max_len:\n                result.add_error(MaxLengthValidationError(path, value, schema.props.max_len))\n        if schema.props.min_len is not Nil:\n            if len(value) < schema.props.min_len:\n                result.add_error(MinLengthValidationError(path, value, schema.props.min_len))\n")]},
+]
+
+MUTANTS += [
+    {"name": "tail window starts one element too early in BOTH siblings", "rule": "LIST-FORMS",
+     "edits": [(V_, "            start = max(0, len(value) - len(elements))", "            start = max(0, len(value) - len(elements) - 1)"),
+               (SU, "            index = max(0, len(value) - len(elements))", "            index = max(0, len(value) - len(elements) - 1)")]},
+    {"name": "exact form stops reporting surplus elements", "rule": "LIST-FORMS",
+     "edits": [(V_, "        if len(value) > len(elements):\n            for index in range(len(elements), len(value)):", "        if len(value) > len(elements) + 1:\n            for index in range(len(elements), len(value)):")]},
+    {"name": "head form reports surplus elements", "rule": "LIST-FORMS",
+     "edits": [(V_, "            errors = self._validate_elements(path, value, elements[:-1], **kwargs)\n            return result.add_errors(errors)\n\n        # tail",
+                "            errors = self._validate_elements(path, value, elements[:-1], **kwargs)\n            result.add_errors(errors)\n            for index in range(len(elements) - 1, len(value)):\n                result.add_error(ExtraElementValidationError(path, value, index))\n            return result\n\n        # tail")]},
 ]
